@@ -622,6 +622,38 @@ class AsyncLoopContext(LoopContext):
 
         return self._length
 
+    def _known_length(self) -> int | None:
+        """The length if it can be told without awaiting: already
+        computed, or the iterable is sized.
+        """
+        if self._length is None:
+            try:
+                self._length = len(self._iterable)  # type: ignore
+            except TypeError:
+                return None
+
+        return self._length
+
+    def __len__(self) -> int:
+        # ``len()``, ``|length`` and truth tests cannot await.
+        length = self._known_length()
+
+        if length is None:
+            raise TypeError(
+                "The length of a loop over an unsized or async iterable is only"
+                " available as 'loop.length' in async mode."
+            )
+
+        return length
+
+    def __bool__(self) -> bool:
+        # The loop object only exists inside the loop body.
+        return True
+
+    def __repr__(self) -> str:
+        length = self._known_length()
+        return f"<{type(self).__name__} {self.index}/{'?' if length is None else length}>"
+
     @property
     async def revindex0(self) -> int:  # type: ignore
         return await self.length - self.index
